@@ -85,6 +85,17 @@ pub fn universe(name: &str) -> Vec<Key> {
                 k
             })
             .collect(),
+        // DEEP — ten keys sharing six bits (one depth-1 merkle page) and spread over a depth-4
+        // binary sub-tree below it: terminals at different depths next to each other, so that a
+        // walker moving from one accessed terminal to the next compacts 0, 1 or several levels
+        "DEEP" => ["0000", "0001", "0010", "0100", "0101", "0110", "0111", "1000", "1100", "1111"]
+            .iter()
+            .map(|sfx| {
+                let mut k = key_from_bits(&format!("101101{sfx}"), false);
+                k[31] = 0x5a;
+                k
+            })
+            .collect(),
         // ROUND — a "round" key (prefix, a one bit, then only zero bits) next to a sub-trie on its
         // left: L and W below prefix 010, R = 0110…0, R2 = 10…0, X elsewhere (sorted: L W R R2 X)
         "ROUND" => {
